@@ -117,19 +117,24 @@ void MEDDLY::unary_operation::compute(const dd_edge &arg, dd_edge &res)
     }
 #ifdef ALLOW_OLD_UNARY_0_17_6
     if (new_style) {
+        //
+        // The result may be the operand: compute into a local edge value.
+        //
         node_handle resp;
+        edge_value resv;
         compute(resF->getMaxLevelIndex(), ~0,
                 arg.getEdgeValue(), arg.getNode(),
-                res.setEdgeValue(), resp);
-        res.set(resp);
+                resv, resp);
+        res.set(resv, resp);
     } else {
         computeDDEdge(arg, res, true);
     }
 #else
     node_handle resp;
+    edge_value resv;
     compute(resF->getMaxLevelIndex(), ~0,
-            arg.getEdgeValue(), arg.getNode(), res.setEdgeValue(), resp);
-    res.set(resp);
+            arg.getEdgeValue(), arg.getNode(), resv, resp);
+    res.set(resv, resp);
 #endif
 #ifdef DEVELOPMENT_CODE
     resF->validateIncounts(true, __FILE__, __LINE__, getName());
